@@ -112,7 +112,21 @@ var wrappers = []string{
 	`(%P%) | tojson`,
 }
 
+var (
+	itemsCache    []item
+	itemsCacheKey string
+)
+
+// allItems is memoised: the item list is a pure function of (tier, seed).
 func allItems(tr tiers, seed uint64) []item {
+	key := fmt.Sprint(tr, seed)
+	if itemsCacheKey != key || itemsCache == nil {
+		itemsCache, itemsCacheKey = buildItems(tr, seed), key
+	}
+	return itemsCache
+}
+
+func buildItems(tr tiers, seed uint64) []item {
 	var items []item
 	add := func(d Data) {
 		d.Budget = tr.Budget
